@@ -922,28 +922,76 @@ func c12Retry(c *Ctx, a *clientAnchors) {
 		}
 	}
 	r.Check(nilRet && errRet && dlRet, "C12-K1", key("results: nil at once, other errors at once, deadline error when exhausted"), c.P.pos(fn.Pos()), "three return kinds present", fmt.Sprintf("nil=%v try-error=%v deadline=%v", nilRet, errRet, dlRet))
-	// loop condition
+	// loop condition: from the head of the loop the try is entered exactly when  i < retry  ∨  retry < 0, decided by truth
+	// table over the two tests (in either order, computed in the loop or once before it)
 	var iphi *ssa.Phi
 	condOK := false
-	for _, b := range fn.Blocks {
-		iff := ifOf(b)
-		if iff == nil || !sameCycle(b, call.Block()) {
-			continue
-		}
-		s := sx.Of(iff.Cond).String()
+	{
 		ret := "field[retry](" + recv + ")"
-		if strings.HasPrefix(s, "bin[<](") && strings.HasSuffix(s, ","+ret+")") {
-			if bo, ok := iff.Cond.(*ssa.BinOp); ok {
-				if ph, ok := bo.X.(*ssa.Phi); ok {
-					iphi = ph
-				}
+		isA := func(v ssa.Value) bool {
+			bo, ok := v.(*ssa.BinOp)
+			if !ok || bo.Op != token.LSS || sx.Of(bo.Y).String() != ret {
+				return false
 			}
-			// true → body (or) ; false → check retry<0
-			fb := b.Succs[1]
-			if iff2 := ifOf(fb); iff2 != nil {
-				s2 := sx.Of(iff2.Cond).String()
-				if s2 == "bin[<]("+ret+",const(0))" {
-					condOK = true
+			if ph, ok := bo.X.(*ssa.Phi); ok && sameCycle(ph.Block(), call.Block()) {
+				iphi = ph
+				return true
+			}
+			return false
+		}
+		isB := func(v ssa.Value) bool { return sx.Of(v).String() == "bin[<]("+ret+",const(0))" }
+		// find the counter first
+		for _, b := range fn.Blocks {
+			if iff := ifOf(b); iff != nil && sameCycle(b, call.Block()) {
+				inner, _ := unwrapBool(iff.Cond)
+				isA(inner)
+			}
+		}
+		if iphi != nil {
+			condOK = true
+			for _, av := range []bool{false, true} {
+				for _, bv := range []bool{false, true} {
+					cur := iphi.Block()
+					entered, decided := false, false
+					for steps := 0; steps < 16 && !decided; steps++ {
+						if cur == call.Block() {
+							entered, decided = true, true
+							break
+						}
+						if !sameCycle(cur, call.Block()) {
+							decided = true
+							break
+						}
+						switch t := cur.Instrs[len(cur.Instrs)-1].(type) {
+						case *ssa.Jump:
+							cur = cur.Succs[0]
+						case *ssa.If:
+							inner, same := unwrapBool(t.Cond)
+							var val bool
+							switch {
+							case isA(inner):
+								val = av
+							case isB(inner):
+								val = bv
+							default:
+								steps = 99 // a third test on the way to the try
+								continue
+							}
+							if !same {
+								val = !val
+							}
+							if val {
+								cur = cur.Succs[0]
+							} else {
+								cur = cur.Succs[1]
+							}
+						default:
+							decided = true
+						}
+					}
+					if !decided || entered != (av || bv) {
+						condOK = false
+					}
 				}
 			}
 		}
